@@ -38,9 +38,9 @@ CMP = {"gt": ">", "lt": "<", "ge": ">=", "le": "<=", "eq": "==", "ne": "!="}
 FAMS = ["fold", "pred", "iseq", "inner", "trace", "issym", "isorth", "det"]
 # translation-unit groups: a TU holds one group and one element type, so that a form that does not compile in one
 # configuration (e.g. min/max of doubles under AVX-512, product of int32 under AVX2) costs exactly those cases
-GROUP = {"sum": "sum", "product": "product", "min": "minmax", "max": "minmax", "norm": "norm", "inner": "inner",
-         "inner1": "trace", "trace": "trace", "trace_b": "trace", "all_of": "pred", "any_of": "pred", "none_of": "pred",
-         "isequal": "iseq", "issymmetric": "iseq", "isorthogonal": "iseq", "det_b": "det_simple"}
+GROUP = {"sum": "lin", "product": "product", "min": "minmax", "max": "minmax", "norm": "lin", "inner": "lin",
+         "inner1": "lin", "trace": "lin", "trace_b": "lin", "all_of": "bool", "any_of": "bool", "none_of": "bool",
+         "isequal": "bool", "issymmetric": "bool", "isorthogonal": "bool", "det_b": "det_simple"}
 PAD_L, PAD_R = [777, -777], [777]          # cells of the view's parent outside the viewed window
 
 
@@ -89,11 +89,31 @@ class C16(Check):
 
     def configs(self, ctx):
         if ctx.tier == "quick":
-            return list(QUICK_CFGS) + ["scalar-14-O2"]
-        return ["%s-%s-O2" % (i, s) for i in ALL_ISAS for s in ("14", "17")]
+            return list(QUICK_CFGS)
+        return ["%s-14-O2" % i for i in ALL_ISAS] + ["avx2-17-O2", "avx512-17-O2"]
 
     def allow_compile_fail(self):
         return True
+
+    # ---- L2 design model (vector accumulators + scalar tail + horizontal step; norm ladder): exhaustive bounded TLC check that it
+    # refines the L1 folds with neutral seeds and absorbs any other seed.  Runs in the background while the plan is generated and built.
+    def model_checks(self, ctx):
+        import threading
+        self._mc_err = None
+
+        def run():
+            try:
+                model_check(ctx, "MC_ReduceDesign", "MC_ReduceDesign.cfg" if ctx.tier == "quick" else "MC_ReduceDesign_thorough.cfg", workers=2)
+            except Exception as e:          # re-raised in the main thread
+                self._mc_err = e
+        self._mc_thread = threading.Thread(target=run)
+        self._mc_thread.start()
+
+    def post_events(self, ctx, traces):
+        self._mc_thread.join()
+        if self._mc_err:
+            raise self._mc_err
+        return traces
 
     # ---- plan: the families of GenReduce run as parallel TLC processes --------------------------------------------
     def plan(self, ctx):
@@ -132,6 +152,13 @@ class C16(Check):
         for c in plan:
             fams[c["fam"]] = fams.get(c["fam"], 0) + 1
         ctx.notes.append("plan by family: " + ", ".join("%s=%d" % kv for kv in sorted(fams.items())))
+        if ctx.replay and ctx.replay["case"].startswith("unit/"):
+            # a CompileFail event names a translation unit, not a case: replay = rebuild that TU (pseudo-case "unit" passes the driver's filter)
+            want = ctx.replay["case"][len("unit/"):]
+            for name, cs in self.partition(plan):
+                if name == want:
+                    return [{"case": "unit", "fam": "unit", "unit": name, "members": cs}]
+            raise ToolFailure("replay unit %s is not in the plan" % want)
         return plan
 
     # ---- code generation ------------------------------------------------------------------------------------------
@@ -202,18 +229,30 @@ class C16(Check):
         hs = json.dumps(head, separators=(",", ":"))[1:-1].replace('"', '\\"')
         return '    { %s\n      Rec rc("%s", "%s"); %s\n      rc%s; %s }' % (" ".join(L), c["case"], hs, call, "".join(logs), out)
 
-    def units(self, ctx, plan, cfgname):
+    def partition(self, plan):
+        """-> [(unit name, [cases])]: one group and one element type per TU, equal chunks of at most `cap` cases."""
         groups = {}
         for c in plan:
-            groups.setdefault((group_of(c), c["T"]), []).append(c)
-        units = []
+            groups.setdefault((group_of(c), "f64" if c["T"] == "b" else c["T"]), []).append(c)      # bool tensors ride with the f64 predicates
+        parts = []
         for (g, T), cs in sorted(groups.items()):
-            per = 24 if g.startswith("det_") else 80
+            cap = 24 if g.startswith("det_") else 80           # factorisation-based determinants are the expensive instantiations
             cs = sorted(cs, key=lambda c: c["case"])
+            per = -(-len(cs) // -(-len(cs) // cap))              # equal chunks of at most `cap` cases
             for ci in range(0, len(cs), per):
-                body = "\n".join(self.stmt(c) for c in cs[ci:ci + per])
-                src = PRELUDE + "int main(int argc, char** argv) {\n    vt::open(argc, argv, \"%s\");\n    vt::install_handlers();\n%s\n    vt::close_ok();\n    return 0;\n}\n" % (cfgname, body)
-                units.append(("%s_%s_%02d" % (g, T, ci // per), src, []))
+                parts.append(("%s_%s_%02d" % (g, T, ci // per), cs[ci:ci + per]))
+        return parts
+
+    def units(self, ctx, plan, cfgname):
+        if len(plan) == 1 and plan[0].get("fam") == "unit":     # replay of a CompileFail event: rebuild exactly that TU
+            parts = [(plan[0]["unit"], plan[0]["members"])]
+        else:
+            parts = self.partition(plan)
+        units = []
+        for name, cs in parts:
+            body = "\n".join(self.stmt(c) for c in cs)
+            src = PRELUDE + "int main(int argc, char** argv) {\n    vt::open(argc, argv, \"%s\");\n    vt::install_handlers();\n%s\n    vt::close_ok();\n    return 0;\n}\n" % (cfgname, body)
+            units.append((name, src, []))
         return units
 
     def event_weight(self, ev):
